@@ -31,6 +31,16 @@ CHECKS = {
    "After every step the retained ring must be a byte-identical contiguous suffix of everything pushed, bounded by capacity (or a single chunk); request_resume acceptance is predicted exactly; an accepted resume's tail starts at the offset and ends at the last byte pushed; peer installed; ResumeReady delivered exactly once; advance clears.",
    "Chunks pushed contiguously (documented producer contract). Eviction tightness not demanded.",
    "DESIGN.md §4 C13"),
+ "C14": ("exploration",
+   "model-based testing (serde_json tree + callable map with independent RFC 6901 resolution), small-scope exhaustive + proptest histories, direct-vs-mounted differential, Wing-Gong linearizability search for concurrent histories",
+   "Histories of registrations, merges, reads, writes and calls over escaped/empty/array/deep pointers run on two registries (direct dispatch and through Router::with_registry under generated prefixes, alternating owned and borrowed dispatch); outcome class, full tree and callable invocation log (exactly once, exact body) compared with the model after every op; concurrent 4x4 request histories must be linearizable including the final tree.",
+   "Only documented registration shapes are generated; non-canonical array indices are treated as unspecified; acknowledgement contents not pinned.",
+   "DESIGN.md §4 C14"),
+ "C18": ("exploration",
+   "model-based testing: bounded-exhaustive sequences (3 peers x 3 keys) + proptest histories against a map model, Wing-Gong linearizability search for concurrent histories",
+   "After every step get/get_by/key_for/aliases_for/len/peers for every peer and key must equal the model; every broadcast must deliver exactly one notify (path, body, format) to each present peer and report one result per present peer, with refusing sinks; concurrent 4-thread histories plus a final full observation must be linearizable.",
+   "insert only for absent ids (documented precondition). Interleavings sampled; each observed history decided exhaustively.",
+   "DESIGN.md §4 C18"),
 }
 
 NOT_YET = "check not built yet in this revision (work in progress; see DESIGN.md §4 for the planned design)"
